@@ -54,21 +54,13 @@ func (d *funcDecoder) DecodeStream(s *Stream, depth int64, p unsafe.Pointer) err
 				Offset: s.totalOffset(),
 			}
 		case 'n':
-			if err := nullBytes(s); err != nil {
-				return err
+			// skipValue has read the literal: the cursor is behind it
+			if bytes.Equal(src, nullbytes) {
+				*(*unsafe.Pointer)(p) = nil
+				return nil
 			}
-			*(*unsafe.Pointer)(p) = nil
-			return nil
-		case 't':
-			if err := trueBytes(s); err == nil {
-				return &errors.UnmarshalTypeError{
-					Value:  "boolean",
-					Type:   runtime.RType2Type(d.typ),
-					Offset: s.totalOffset(),
-				}
-			}
-		case 'f':
-			if err := falseBytes(s); err == nil {
+		case 't', 'f':
+			if string(src) == "true" || string(src) == "false" {
 				return &errors.UnmarshalTypeError{
 					Value:  "boolean",
 					Type:   runtime.RType2Type(d.typ),
